@@ -1,4 +1,8 @@
 import Lemmas.Cmdline
+import Lemmas.CmdlineExit
+import Lemmas.CmdlineFile
+import Lemmas.CmdlineContrast
+import Lemmas.CmdlineDecl
 /-! # C10 — command-line parsing assigns exactly what the arguments say
 
 `Cmd.scan tbl acc files args` is the model of the argument loop of `(*CmdLine).Parse`, `Cmd.parse` adds the
@@ -128,6 +132,16 @@ theorem declared_long_spellings_valid (orc : Oracle) (incl : Bool) (decls : List
     (Spell.longSep n ⟨firstUserId + i, false⟩ v).Valid (tableOf es) (acceptsOf orc incl decls) :=
   declared_long_valid orc incl decls es hb i d hd n hn heq hk v hv
 
+/-- … and for a declared `*bool` option the flag spellings: `--flag` (name without `=`) and `-f` (any Unicode scalar
+    value except `-`); `Set("true")` is accepted by construction of `ParseBool` -/
+theorem declared_flag_spellings_valid (orc : Oracle) (incl : Bool) (decls : List Decl) (es : Entries)
+    (hb : build incl decls = some es) (i : Nat) (d : Decl) (hd : decls[i]? = some d) (hk : d.kind.isBool = true) :
+    (∀ n, d.name = some n → 61 ∉ n →
+      (Spell.flagLong n ⟨firstUserId + i, true⟩).Valid (tableOf es) (acceptsOf orc incl decls)) ∧
+    (0 < d.single → d.single ≤ 1114111 → (d.single < 55296 ∨ 57343 < d.single) → d.single ≠ 45 →
+      (Spell.flags [(encodeRune d.single, ⟨firstUserId + i, true⟩)]).Valid (tableOf es) (acceptsOf orc incl decls)) :=
+  declared_flag_valid orc incl decls es hb i d hd hk
+
 /-- **positional tail verbatim**: once collection has begun (after `--` or the first positional) every further
     argument is returned unchanged, whatever it looks like (`-x`, `--name=v`, `--`, `@file`, empty, …) -/
 theorem positional_tail_verbatim (tbl : Table) (acc : Accepts) (files : Files) (seen : List Str) (a : PAcc)
@@ -141,6 +155,20 @@ theorem bare_dash_is_first_positional (tbl : Table) (acc : Accepts) (files : Fil
     (args : List Str) :
     run tbl acc files seen a .look ([45] :: args) = .ok { a with rest := a.rest ++ [45] :: args } :=
   run_bare_dash tbl acc files seen a args
+
+/-- CONTRAST (the defect repaired by the fix `multibyte-short`): the short-option loop that takes the option name to be
+    ONE BYTE wide (`arg[j+1:]`) — the same loop otherwise: with the width of the decoded rune it is `Cmd.shortLoop` — misreads
+    a multi-byte name.  For the string option `é`: `-é=v` assigns the bytes `a9 3d 76` instead of `v`; `-é` followed by
+    a separate value assigns `a9` at once and leaves the value to be taken for the next argument. -/
+theorem contrast_byte_wide_name_misreads_multibyte :
+    (∀ tbl acc s a, shortLoopW nextLen tbl acc s a = shortLoop tbl acc s a) ∧
+    shortLoop exTblE (fun _ _ => true) [195, 169, 61, 118] {} = some (⟨[(3, [118])], []⟩, .look) ∧
+    shortLoopW (fun _ => 1) exTblE (fun _ _ => true) [195, 169, 61, 118] {} =
+      some (⟨[(3, [169, 61, 118])], []⟩, .look) ∧
+    (shortLoop exTblE (fun _ _ => true) [195, 169] {}).map (fun r => r.1) = some {} ∧
+    (shortLoopW (fun _ => 1) exTblE (fun _ _ => true) [195, 169] {}).map (fun r => r.1) = some ⟨[(3, [169])], []⟩ :=
+  ⟨shortLoopW_nextLen, shortLoop_multibyte_eq, shortLoopW_one_multibyte_eq, shortLoop_multibyte_sep.1,
+   shortLoop_multibyte_sep.2⟩
 
 /-! ## final contents of the option variables
 
@@ -289,6 +317,47 @@ theorem observation_reference_in_value_position (tbl : Table) (acc : Accepts) (f
        | some a' => run tbl acc files seen a' .look args) :=
   run_value tbl acc files seen a o (64 :: f) args
 
+/-- `GeneralValue.String()` of a slice value (the default shown in the usage text): the `%v` texts of the elements joined
+    with ", " — except that empty leading elements (possible for `*[]string`) leave no trace, because the separator is
+    only written into a non-empty buffer.  `Cmd.gvString` / `Cmd.gvHistory` are what the `gs` lines of the check run
+    against `GeneralValue.Set` / `String` used directly. -/
+theorem observation_general_value_string_of_slice (b : Base) (elems : List Str) :
+    gvString ⟨b, true⟩ elems =
+      (match elems.dropWhile (fun e => e.isEmpty) with
+       | [] => []
+       | e :: es => e ++ es.flatMap (fun x => [44, 32] ++ x)) :=
+  gvString_slice b elems
+
+/-- … of a scalar after a successful `Set`: the `%v` text of the value just set (between double quotes for a string),
+    whatever the variable held before -/
+theorem general_value_string_after_set (k : Kind) (hs : k.slice = false) (elems e' : List Str) (raw : Str)
+    (h : gvSet k elems raw = some e') :
+    ∃ t, vText k.base raw = some t ∧ e' = [t] ∧
+      gvString k e' = (if k.base = .str then [34] ++ t ++ [34] else t) := by
+  rw [gvSet_scalar k hs] at h
+  cases ht : vText k.base raw with
+  | none => simp [ht] at h
+  | some t =>
+    simp only [ht, Option.map_some, Option.some.injEq] at h
+    subst h
+    refine ⟨t, rfl, rfl, ?_⟩
+    unfold gvString
+    simp only [hs, Bool.false_eq_true, if_false, List.headD_cons]
+    cases hb : k.base <;> simp
+
+/-- what a FAILING `GeneralValue.Set` leaves behind (never seen through `Parse`, where the error is fatal; compared by the
+    `gf` lines): the cases that parse into a temporary — every type except `*bool`, `*int64`, `*uint64` (and the float64 /
+    Duration cases, not modelled), and every slice type — leave the variable exactly as it was; a `*bool` is set to
+    `false` by the failed conversion -/
+theorem observation_failing_set_store (k : Kind) (elems : List Str) (raw : Str) (h : gvSet k elems raw = none) :
+    gvSetFull false k elems raw = (elems, false) ∧
+    (k.slice = true → ∀ direct, gvSetFull direct k elems raw = (elems, false)) ∧
+    (k = ⟨.bool, false⟩ → gvSetFull true k elems raw = ([ofString "false"], false)) := by
+  refine ⟨(gvSetFull_fail_keeps k elems raw h).1, (gvSetFull_fail_keeps k elems raw h).2, ?_⟩
+  intro hk
+  subst hk
+  exact gvSetFull_fail_direct_bool elems raw h
+
 /-! ## malformed vectors -/
 
 /-- **malformed ⇒ fatal.**  Behind any valid spellings, an unknown long or short option, a value given to a boolean
@@ -318,6 +387,142 @@ theorem malformed_fatal_declared (orc : Oracle) (incl : Bool) (decls : List Decl
 theorem bad_declarations_fatal (orc : Oracle) (incl : Bool) (decls : List Decl) (files : Files) (args : List Str)
     (h : build incl decls = none) : parse orc incl decls files args = .fatal := by
   simp [parse, h]
+
+/-! ## response files on disk (`loadArgsFromFile`, cmdline.go:258-275)
+
+`Cmd.readFile` is the reader on the BYTES of a file: `bufio.Scanner` lines (`Cmd.linesOf`), refused as a whole when one
+line fills the scanner's 64 KiB buffer (`Cmd.tooLong`, `scanner.Err()` is `ErrTooLong`); `Cmd.filesOf` builds the `files`
+parameter of the scanner from the bytes on disk (a refused or unreadable file is absent, so naming it is fatal).  The
+driver runs every response file given as bytes through these definitions. -/
+
+/-- a file written as LF-terminated lines, each shorter than the scanner's buffer, none containing LF or ending in CR,
+    is loaded as exactly these lines -/
+theorem response_file_loaded (ls : List Str) (h : ∀ l ∈ ls, 10 ∉ l ∧ l.getLast? ≠ some 13)
+    (hs : ∀ l ∈ ls, l.length < maxToken) : readFile (ls.flatMap (fun l => l ++ [10])) = some ls :=
+  readFile_lf ls h hs
+
+/-- a line of `maxToken` bytes or more — wherever it stands in the file, whatever precedes and follows it — makes
+    `loadArgsFromFile` return an error instead of lines -/
+theorem response_file_line_too_long_refused (ls : List Str) (h : ∀ l ∈ ls, 10 ∉ l) (l rest : Str) (hl : 10 ∉ l)
+    (hlong : maxToken ≤ l.length) : readFile (ls.flatMap (fun l => l ++ [10]) ++ (l ++ 10 :: rest)) = none :=
+  readFile_long_after ls h l rest hl hlong
+
+/-- **a response file that cannot be loaded is fatal, never silently shortened**: when every file stored under the
+    path is refused (or unreadable), a reference to it where an option is expected takes the fatal path -/
+theorem unloadable_response_file_fatal (tbl : Table) (acc : Accepts) (raw : List (Str × Option Str)) (seen : List Str)
+    (a : PAcc) (f : Str) (args : List Str)
+    (h : ∀ e ∈ raw, e.1 = f → ∀ c, e.2 = some c → readFile c = none) :
+    run tbl acc (filesOf raw) seen a .look ((64 :: f) :: args) = .fatal :=
+  missing_file_fatal tbl acc (filesOf raw) seen a f args (filesOf_lookup_none raw f h)
+
+/-- **response-file split, from the bytes on disk**: valid spellings, then `@f` where the file `f` holds the arguments
+    `ins` as LF-terminated lines, then anything — the same result as with the lines written out in place -/
+theorem response_split_on_disk (tbl : Table) (acc : Accepts) (raw : List (Str × Option Str)) (sps : List Spell)
+    (hv : ∀ sp ∈ sps, sp.Valid tbl acc) (post ins : List Str) (f : Str)
+    (h : ∀ l ∈ ins, 10 ∉ l ∧ l.getLast? ≠ some 13) (hs : ∀ l ∈ ins, l.length < maxToken)
+    (h1 : FilesNoRef (filesOf ((f, some (ins.flatMap (fun l => l ++ [10]))) :: raw)) f) (h3 : NoRef f post) :
+    scan tbl acc (filesOf ((f, some (ins.flatMap (fun l => l ++ [10]))) :: raw))
+        (sps.flatMap Spell.args ++ (64 :: f) :: post) =
+      scan tbl acc (filesOf ((f, some (ins.flatMap (fun l => l ++ [10]))) :: raw))
+        (sps.flatMap Spell.args ++ (ins ++ post)) :=
+  response_split_scan tbl acc _ sps hv post ins f (filesOf_lookup_head raw f _ ins (readFile_lf ins h hs)) h1 h3
+
+/-- the reader that does not look at `scanner.Err()` reads the same lines from every file the real reader accepts … -/
+theorem unchecked_scanner_agrees_on_loadable (content : Str) (h : tooLong content = false) :
+    readFileNoErr content = linesOf content :=
+  readFileNoErr_ok content h
+
+/-- … CONTRAST: but from a file with a line that is too long it hands the parser the lines in FRONT of that line and
+    nothing else — the long line and everything behind it would be dropped silently (the real reader refuses the
+    file: `response_file_line_too_long_refused`) -/
+theorem contrast_unchecked_scanner_drops_arguments (ls : List Str) (h : ∀ l ∈ ls, 10 ∉ l ∧ l.getLast? ≠ some 13)
+    (hs : ∀ l ∈ ls, l.length < maxToken) (l rest : Str) (hl : 10 ∉ l) (hlong : maxToken ≤ l.length) :
+    readFileNoErr (ls.flatMap (fun l => l ++ [10]) ++ (l ++ 10 :: rest)) = ls ∧
+    readFile (ls.flatMap (fun l => l ++ [10]) ++ (l ++ 10 :: rest)) = none :=
+  ⟨readFileNoErr_truncates ls h hs l rest hl hlong, readFile_long_after ls (fun x hx => (h x hx).1) l rest hl hlong⟩
+
+/-! ## the fatal path: `atexit.Exit` (atexit.go:78-116)
+
+`AtExit.runHistory acts ops status` is the observable behaviour of a process that makes the `Register` / `Unregister`
+calls `ops` and then calls `Exit(status)`: the exit functions that run, in order, and the exit status.  `acts f` is what
+function `f` does when it runs (nothing, panic, call `Exit` again, `Register`, `Unregister`).  `Cmd.processEnd` puts the
+outcome of `Parse` in front: a fatal outcome and the usage text are `Exit(1)`, the version texts `Exit(0)`, a normal
+return runs nothing.  `AtExit.liveFrom 0 ops` reads the history declaratively: the n-th registration counts iff no
+LATER operation unregisters the id it was given. -/
+
+/-- `Exit` runs exactly the functions registered at the moment of the call, each once, last registered first, and ends
+    the process with the status it was given — whatever the functions do while they run -/
+theorem exit_runs_snapshot_in_reverse (acts : Nat → AtExit.Act) (ids : List Nat) (s : AtExit.St) (status : Nat)
+    (h : s.exiting = false) :
+    AtExit.exit acts ids s status = some ((s.pairs.map (·.2)).reverse, status) :=
+  AtExit.exit_eq acts ids s status h
+
+/-- what the exit functions do (panic, recursive `Exit` with another status, `Register`, `Unregister` of a function that
+    has not run yet) changes neither which functions run nor the exit status -/
+theorem exit_functions_cannot_change_the_exit (acts acts' : Nat → AtExit.Act) (ops : List AtExit.Op) (status : Nat) :
+    AtExit.runHistory acts ops status = AtExit.runHistory acts' ops status := by
+  rw [AtExit.runHistory_eq, AtExit.runHistory_eq]
+
+/-- **after any history**: the functions that run are those whose registration no later `Unregister` names, in reverse
+    order of registration; the status is the one given -/
+theorem exit_after_history (acts : Nat → AtExit.Act) (ops : List AtExit.Op) (status : Nat) :
+    AtExit.runHistory acts ops status = some ((AtExit.liveFrom 0 ops).reverse, status) :=
+  AtExit.runHistory_eq acts ops status
+
+/-- the ids `Register` returns are 1, 2, 3, … — never reused, so `Unregister(id)` can only remove the registration that
+    was given this id -/
+theorem register_ids_never_reused (ops : List AtExit.Op) :
+    ∃ m, (AtExit.applyOps ops).2 = (List.range m).map (· + 1) :=
+  AtExit.ids_eq ops
+
+/-- **malformed ⇒ the fatal EXIT path**: a malformed vector ends the process through `atexit.Exit(1)` — every exit
+    function registered (and not unregistered) before `Parse` runs, last registered first, and the status is 1 -/
+theorem malformed_runs_exit_functions (orc : Oracle) (incl : Bool) (decls : List Decl) (files : Files) (es : Entries)
+    (hb : build incl decls = some es) (sps : List Spell)
+    (hv : ∀ sp ∈ sps, sp.Valid (tableOf es) (acceptsOf orc incl decls)) (l : List Str)
+    (h : Malformed (tableOf es) (acceptsOf orc incl decls) l) (acts : Nat → AtExit.Act) (ops : List AtExit.Op) :
+    processEnd acts ops (parse orc incl decls files (sps.flatMap Spell.args ++ l)) =
+      some ((AtExit.liveFrom 0 ops).reverse, 1) := by
+  rw [malformed_fatal_declared orc incl decls files es hb sps hv l h]
+  simp only [processEnd, Outcome.exitStatus]
+  exact AtExit.runHistory_eq acts ops 1
+
+/-- … while a valid vector (no built-in option among the assignments) makes `Parse` return: no exit function runs -/
+theorem valid_vector_returns (orc : Oracle) (incl : Bool) (decls : List Decl) (files : Files) (es : Entries)
+    (hb : build incl decls = some es) (sps : List Spell)
+    (hv : ∀ sp ∈ sps, sp.Valid (tableOf es) (acceptsOf orc incl decls)) (t : Tail) (ht : t.OK)
+    (hu : ∀ s ∈ sps.flatMap Spell.sets, firstUserId ≤ s.1) (acts : Nat → AtExit.Act) (ops : List AtExit.Op) :
+    processEnd acts ops (parse orc incl decls files (sps.flatMap Spell.args ++ t.args)) = none := by
+  rw [parse_render_declared orc incl decls files es hb sps hv t ht hu]
+  rfl
+
+/-- a valid vector that also spells built-in options: the help / version decision (cmdline.go:180-191) is made on
+    exactly the spelled assignments, after the whole vector has been scanned -/
+theorem parse_render_with_builtins (orc : Oracle) (incl : Bool) (decls : List Decl) (files : Files) (es : Entries)
+    (hb : build incl decls = some es) (sps : List Spell)
+    (hv : ∀ sp ∈ sps, sp.Valid (tableOf es) (acceptsOf orc incl decls)) (t : Tail) (ht : t.OK) :
+    parse orc incl decls files (sps.flatMap Spell.args ++ t.args) = finish (.ok ⟨sps.flatMap Spell.sets, t.rest⟩) :=
+  parse_render_finish orc incl decls files es hb sps hv t ht
+
+/-- `-h` / `--help` anywhere among valid assignments: the usage text, then `atexit.Exit(1)` — the registered exit
+    functions run here too -/
+theorem help_exits_through_atexit (orc : Oracle) (incl : Bool) (decls : List Decl) (files : Files) (es : Entries)
+    (hb : build incl decls = some es) (sps : List Spell)
+    (hv : ∀ sp ∈ sps, sp.Valid (tableOf es) (acceptsOf orc incl decls)) (t : Tail) (ht : t.OK)
+    (hh : ∃ s ∈ sps.flatMap Spell.sets, s.1 = idHelp) (acts : Nat → AtExit.Act) (ops : List AtExit.Op) :
+    processEnd acts ops (parse orc incl decls files (sps.flatMap Spell.args ++ t.args)) =
+      some ((AtExit.liveFrom 0 ops).reverse, 1) := by
+  rw [parse_render_finish orc incl decls files es hb sps hv t ht, finish_help _ hh]
+  simp only [processEnd, Outcome.exitStatus]
+  exact AtExit.runHistory_eq acts ops 1
+
+/-- CONTRAST: an `Exit` that walked the live registry instead of a snapshot would let an exit function cancel one that
+    has not run yet — function 1 unregisters function 0: the real `Exit` runs 1 then 0, the live walk only 1 -/
+theorem contrast_live_registry_skips_function :
+    AtExit.runHistory (fun f => if f = 1 then .unreg 0 else .plain) [.reg 0, .reg 1] 1 = some ([1, 0], 1) ∧
+    AtExit.exitLive (fun f => if f = 1 then .unreg 0 else .plain) (AtExit.applyOps [.reg 0, .reg 1]).2 2
+      (AtExit.applyOps [.reg 0, .reg 1]).1 = [1] := by
+  decide
 
 /-! ## the hypotheses are satisfiable (non-vacuity)
 
@@ -356,5 +561,17 @@ example : parse [] false exDecls [] [[45, 110], [120], [45, 45, 110, 97, 109, 10
 
 example : (applySets [] false exDecls (initStore [] exDecls) [(3, [120]), (3, [121])]).get 3 = ["79"] ∧
     (applySets [] false exDecls (initStore [] exDecls) [(3, [120]), (3, [121])]).get 4 = ["false"] := by decide
+
+/-! a response file whose only line is 64 KiB of `x`: refused (hypotheses of `response_file_line_too_long_refused`) -/
+example : readFile (List.replicate maxToken 120 ++ 10 :: []) = none := by
+  have := response_file_line_too_long_refused [] (by simp) (List.replicate maxToken 120) []
+    (by simp [List.mem_replicate]) (by simp)
+  simpa using this
+
+/-! a history: two registrations, the first unregistered again, an `Unregister` of an id never handed out -/
+example : AtExit.liveFrom 0 [.reg 5, .reg 6, .unreg 0, .unreg 7] = [6] := by decide
+
+example : AtExit.runHistory (fun _ => .reExit) [.reg 5, .reg 6, .unreg 0, .unreg 7] 1 = some ([6], 1) :=
+  exit_after_history _ _ _
 
 end C10
